@@ -24,6 +24,8 @@ class StaleWriter(actors.Party):
     def step(self):
         r = self.r
         b = r.choice(self.buckets)
+        if r.random() < 0.2:
+            return {"op": "other_store", "b": b, "ev": self.ev()}
         if r.random() < 0.5:
             return {"op": "insert_stale", "b": b, "ev": self.ev()}
         return {"op": "insert_stale", "b": b, "evs": [{"ev": self.ev()} for _ in range(r.randrange(1, 4))]}
@@ -40,7 +42,7 @@ class C04(Check):
         "at least one mutating operation addressed bucket A executed while another bucket held events; distinct = "
         "distinct (backend, executed op-kind sequence)"
     )
-    expected_probes = ["foreign_id_used", "frame_checked_with_populated_other", "op_rejected", "tie_endtime_across_buckets", "restart_clean", "observation_deferred", "frame_checked_with_buffered_writes_elsewhere", "insert_through_stale_handle", "event_object_reused"]
+    expected_probes = ["foreign_id_used", "frame_checked_with_populated_other", "op_rejected", "tie_endtime_across_buckets", "restart_clean", "observation_deferred", "frame_checked_with_buffered_writes_elsewhere", "insert_through_stale_handle", "event_object_reused", "other_store_in_same_process"]
     assumptions = [
         "callers are serialised (one API call at a time), as aw-server does",
         "the unwindowed read get(limit=-1) and buckets() are faithful observers of a bucket (C02/C05 cover that)",
@@ -100,6 +102,12 @@ class C04(Check):
             return
         after = world.refresh_view()
         pending, self._pending = self._pending, collections.defaultdict(list)
+        if op == "other_store" and not any(pending.values()):
+            # traffic on another store object (its own file / memory) concerns no bucket of this store
+            if before != after:
+                diff = [b for b in sorted(set(before) | set(after)) if before.get(b) != after.get(b)]
+                raise Violation("frame_events", "creating and feeding a bucket in ANOTHER store object changed buckets %s of this store" % diff, {"op": op})
+            return
         if op not in self.MUTATING:
             if op in ("restart_clean", "new_datastore") or not any(pending.values()):
                 return
